@@ -125,9 +125,13 @@ mod tree_store;
 mod tuple_types;
 mod types;
 
+#[cfg(redb_verif)]
+mod verif_pause;
+
 /// Verification hooks, only present under `--cfg redb_verif`
 #[cfg(redb_verif)]
 pub mod verif {
+    pub use crate::verif_pause::*;
     pub use crate::tree_store::page_store_verif::*;
 }
 
